@@ -104,6 +104,10 @@ Proof.
     + split. discriminate. intros H. inversion H; subst. congruence.
 Qed.
 
+Lemma Forall2_impl {A B} (P Q : A -> B -> Prop) : (forall a b, P a b -> Q a b) ->
+  forall l l', Forall2 P l l' -> Forall2 Q l l'.
+Proof. intros H l l' F. induction F; constructor; auto. Qed.
+
 Lemma resolve_mono sb n : forall t v, resolve n sb t = Some v -> forall m, n <= m -> resolve m sb t = Some v.
 Proof.
   induction n as [|n IH]; intros t v; simpl; [discriminate|].
@@ -180,9 +184,9 @@ Proof.
   intros W. induction L as [|x L [m Hm]].
   - exists 0. intros y [].
   - destruct (resolve_total sb W (Ex x)) as [n [v Hn]]. exists (max n m). intros y [<-|Hy].
-    + erewrite resolve_mono; eauto. discriminate. lia.
+    + rewrite (resolve_mono _ _ _ _ Hn (max n m)) by lia. discriminate.
     + specialize (Hm y Hy). destruct (resolve m sb (Ex y)) eqn:R; [|congruence].
-      erewrite resolve_mono; eauto. discriminate. lia.
+      rewrite (resolve_mono _ _ _ _ R (max n m)) by lia. discriminate.
 Qed.
 
 Definition allvars (sb : subst) : list N := flat_map (fun p => fst p :: vars (snd p)) sb.
